@@ -176,6 +176,12 @@ impl Property for C16 {
     }
     fn check(&self, case: &DetCase, stats: &mut Stats) -> Verdict {
         let base = dump_imported(case);
+        // the number of outline paths grows exponentially with shared includes; eleven dumps of a
+        // library with tens of thousands of paths cost minutes without saying more than smaller ones
+        let npaths = base.get("paths(sorted)").and_then(|v| v.as_array()).map(|a| a.len()).unwrap_or(0);
+        if npaths > 12_000 {
+            return Verdict::Discard(format!("path listing larger than 12 000 entries"));
+        }
         // thread pools
         for threads in [1usize, 2, 3, 8, 16] {
             let pool = rayon::ThreadPoolBuilder::new().num_threads(threads).build().expect("pool");
